@@ -933,7 +933,9 @@ theorem step_not_idle (sp : Spec) (w : World) (e : Event) (h : w.wf ≠ .IDLE) :
         · exact h
         · split
           · exact h
-          · split <;> exact h
+          · split
+            · exact h
+            · split <;> exact h
     | postRunAction t => simp only [step]; split <;> exact h
     | postCheck =>
       simp only [step]; split
